@@ -17,7 +17,7 @@ TECHNIQUE = ('metamorphic over file formats: Hypothesis-generated data expressib
              'serialised with independent libraries, loaded by graphtage and compared across all 16 ordered format pairs')
 RULE = ("Cases: a document x (string keys, lists, mappings, booleans, 64-bit ints, finite floats, strings without "
         "XML-illegal control characters, no null) and a second document c (independent, mutated, or x with one scalar re-typed to an equal-looking value: true <-> 1, 1 <-> '1'), x build options; in a quarter of the cases one container is referenced from two places, so that the YAML file contains an anchor and an alias. Strings include spellings that look like numbers or special scalars in some syntax ('1e5', '0x1F', 'on', '2001-01-01'). x and c are written with "
-        "json.dumps (as .json and .json5), yaml.safe_dump and plistlib.dumps; a file is kept only if the independent "
+        "json.dumps (as .json and .json5), yaml.safe_dump and plistlib.dumps, or (half of the cases) with alternative spellings: indented JSON with raw non-ASCII, JSON5 with a leading comment and trailing commas, block-style YAML with an explicit document start, binary plists; strings include pieces of syntax ('[a, b, ]', '// x', 'http://...'); in four cases out of five the first document is also piped to standard input under a stdin text encoding of latin-1 / utf-8 / ascii / cp1252; a file is kept only if the independent "
         "parser of its format (json.loads, json5.loads, yaml.safe_load, plistlib.loads) reads back exactly the document "
         "(otherwise the case is discarded and counted). Oracle for every ordered pair of formats (f, g): canonical "
         "value of load_f(x) equals that of load_g(x); the two roots compare ==; load_f(x).diff(load_g(x)) costs 0; "
@@ -32,7 +32,7 @@ MANIFEST_TEXT = ("Cross-format metamorphic check over all ordered pairs of the f
                  "Exploration over bounded documents; the known plist-wrapper finding F13 is excluded by key and reported.")
 MANIFEST_NOTE = "Trusts json, json5, PyYAML's SafeLoader and plistlib as independent readers of the files written."
 DESIGN_REF = 'DESIGN.md section 3, C09'
-SHRINK = {'docs': ['x', 'c'], 'enums': {'ds': 'auto', 'le': 'on', 'share': False}}
+SHRINK = {'docs': ['x', 'c'], 'enums': {'ds': 'auto', 'le': 'on', 'share': False, 'native': False, 'stdin_enc': None}}
 
 FMTS = ['json', 'json5', 'yaml', 'plist']
 
@@ -40,6 +40,9 @@ xmlsafe = st.text(alphabet=st.characters(min_codepoint=32, max_codepoint=0x2FF, 
 scal = st.one_of(st.booleans(), st.integers(-2 ** 63, 2 ** 63 - 1), st.integers(-5, 300),
                  st.floats(allow_nan=False, allow_infinity=False), st.sampled_from([0.5, -0.0, 1e10, 1.0, 1e-7]), xmlsafe,
                  st.sampled_from(['1', 'true', 'null', 'yes', '~', '1.0', '', ' ', 'a: b', '- x', '#c', "'", '"']),
+                 # strings that contain pieces of syntax: brackets after commas, comment openers, URLs
+                 st.sampled_from(['[a, b, ]', '{x,}', 'a, ]', 'http://e.x/p', '/* c */ x', '// not a comment', 'x,}', ',]', 'a /* b', '<!-- c -->',
+                                  '&amp;', '<k>', '# x', 'Zürich', 'naïve café']),
                  # strings that look like numbers / special scalars in one syntax or another
                  st.sampled_from(['1e5', '12E3', '1.5e3', '7e-2', '0x1F', '0o17', '1_000', '+1', '.5', '1.', 'NaN', '.inf', 'on', 'No',
                                   '2001-01-01', '1:30', '0b11', '1e+5', 'Infinity', '-0', '00', '1,5']))
@@ -76,7 +79,8 @@ def cases(draw, max_leaves):
     x = draw(D)
     c = draw(st.one_of(D, gen.mutate(x, D, scal), retyped(x), retyped(x)))
     ds, le = draw(gen.options)
-    return {'x': x, 'c': c, 'ds': ds, 'le': le, 'share': draw(st.integers(0, 3)) == 0}
+    return {'x': x, 'c': c, 'ds': ds, 'le': le, 'share': draw(st.integers(0, 3)) == 0, 'native': draw(st.booleans()),
+            'stdin_enc': draw(st.sampled_from([None, 'latin-1', 'utf-8', 'ascii', 'cp1252']))}
 
 
 def jobs(tier):
@@ -108,13 +112,39 @@ def valid(case):
     return in_domain(case.get('x')) and in_domain(case.get('c')) and case.get('ds') in common.DS and case.get('le') in common.LE
 
 
-def write_all(doc, tag):
+def dump_json5_native(doc):
+    """JSON5 as people write it: a comment first, trailing commas in every container (keys and strings double-quoted)"""
+    def rec(d):
+        if isinstance(d, dict):
+            return '{' + ''.join(f"{json.dumps(k)}: {rec(v)}, " for k, v in d.items()) + '}'
+        if isinstance(d, list):
+            return '[' + ''.join(f"{rec(v)}, " for v in d) + ']'
+        return json.dumps(d)
+    return '// written by hand\n' + rec(doc) + '\n'
+
+
+def dump_native(doc, f):
+    """an alternative, equally valid spelling of the document in each format"""
+    if f == 'json':
+        return json.dumps(doc, indent=2, ensure_ascii=False) + '\n'
+    if f == 'json5':
+        return dump_json5_native(doc)
+    if f == 'yaml':
+        import yaml
+        return yaml.safe_dump(doc, default_flow_style=False, allow_unicode=True, explicit_start=True, sort_keys=False)
+    if f == 'plist':
+        import plistlib
+        return plistlib.dumps(doc, fmt=plistlib.FMT_BINARY, sort_keys=False)
+    raise ValueError(f)
+
+
+def write_all(doc, tag, native=False):
     """-> {fmt: path} or None if some format cannot represent the document faithfully."""
     paths = {}
     want = strict(doc)
     for f in FMTS:
         try:
-            data = cli.dump_doc(doc, f)
+            data = dump_native(doc, f) if native else cli.dump_doc(doc, f)
             back = cli.load_doc(data, f)
         except Exception:
             return None
@@ -173,8 +203,8 @@ def check(case):
         out.skipped = 'outside-common-domain'
         return out
     opts = common.build_options(case.get('ds', 'auto'), case.get('le', 'on'))
-    px = write_all(x, 'x')
-    pc = write_all(c, 'c') if px else None
+    px = write_all(x, 'x', bool(case.get('native')))
+    pc = write_all(c, 'c', bool(case.get('native'))) if px else None
     if not px or not pc:
         cli.cleanup_files(*(list((px or {}).values()) + list((pc or {}).values())))
         out.skipped = 'serialisation-does-not-round-trip'
@@ -228,10 +258,19 @@ def check(case):
                 out.fail(f'exit-status:{pair}', f"main() raised {r.exc_key} instead of returning 0 for the same data as {f} and as {g}: {x!r}")
             elif r.rc != 0:
                 out.fail(f'exit-status:{pair}', f"main() returned {r.rc!r} for the same data as {f} and as {g}: {x!r}")
+            elif case.get('stdin_enc') and f != g:
+                # the first document arrives on standard input, whose text layer has some locale encoding (the bytes are the file's)
+                with open(px[f], 'rb') as fh:
+                    raw = fh.read()
+                r = cli.run_main(['-', px[g], f'--from-{f}'] + args[2:], stdin=raw, stdin_encoding=case['stdin_enc'])
+                if r.exc is not None or r.rc != 0:
+                    out.fail(f'exit-status:stdin:{pair}', f"the {f} document piped to standard input (stdin encoding {case['stdin_enc']}) against the same data "
+                                                          f"as {g}: rc={r.rc!r} exc={r.exc_key}: {x!r}")
     finally:
         cli.cleanup_files(*(list(px.values()) + list(pc.values())))
     out.nontrivial = has_list_and_mapping(x)
-    out.label('ds:' + case.get('ds', 'auto'), 'le:' + case.get('le', 'on'))
+    out.label('ds:' + case.get('ds', 'auto'), 'le:' + case.get('le', 'on'), 'native-spellings' if case.get('native') else 'library-spellings',
+              'stdin:' + str(case.get('stdin_enc')))
     if out.nontrivial:
         out.label('nested')
     out.info = {'third_cost': base_cost}
